@@ -86,8 +86,10 @@ prop("C10", "exploration",
           "load_database at seeded prefixes and at the end; full observation before/after compared; non-trivial = at least one "
           "reload of a non-empty library; distinct = new plan digest reaching a new observation hash")
 prop("C16", "exploration",
-     quick=[("mixed_pure", "fast", 900), ("tracks_pure", "fast", 300), ("hostile_pure", "fast", 900)],
-     thorough=[("mixed_pure", "fast", 50000), ("tracks_pure", "fast", 20000), ("crates_pure", "fast", 20000), ("hostile_pure", "fast", 40000)],
+     quick=[("mixed_pure", "fast", 900), ("tracks_pure", "fast", 300), ("hostile_pure", "fast", 900), ("table_pure", "fast", 300),
+            ("mixed_pure_disk", "fast", 400)],
+     thorough=[("mixed_pure", "fast", 50000), ("tracks_pure", "fast", 20000), ("crates_pure", "fast", 20000), ("hostile_pure", "fast", 40000),
+               ("table_pure", "fast", 20000), ("mixed_pure_disk", "fast", 20000)],
      relevant=["purity_checked"],
      rule="in every state reached by the mixed workload the monitor brackets the full block of observing calls with VFS "
           "write/truncate counters, sqlite3_total_changes and the image hash, and repeats the observation with the clock "
@@ -341,6 +343,10 @@ def sweep(profile, variant, runs, seed, collector, workers=None):
             if done:
                 return
             # the worker died inside run `cur`
+            if rc in (2, 3):
+                with lock:
+                    collector.machinery_error(f"worker for {profile}/{variant} reported a usage/fatal error: rc={rc} {err[-300:]}")
+                return
             if cur is None:
                 with lock:
                     collector.machinery_error(f"worker for {profile}/{variant} died before its first run: rc={rc} {err[-500:]}")
